@@ -7,7 +7,7 @@ out=$1; jobs=$2; shift 2
 mkdir -p "$out"
 one() {
   d=$1; out=$2
-  tag=$(echo "$d" | sed 's#/*$##; s#.*/\([^/]*\)/\([^/]*\)$#\1-\2#')
+  tag=$(echo "$d" | sed 's#/*$##' | awk -F/ '{print $(NF-2)"-"$(NF-1)"-"$NF}')
   wt=/tmp/evwt/$tag
   rm -rf "$wt"; mkdir -p /tmp/evwt
   git -C /repo worktree add -f --detach "$wt" HEAD -q >/dev/null 2>&1 || { echo "WT-FAILED" > "$out/$tag.log"; return; }
